@@ -246,3 +246,76 @@ package meta
 //@     invariant !denied
 //@   loop 2
 //@     invariant !denied
+
+// ================================================================ C15: snapshots carry every field (class D)
+//@ prop C15
+
+// `carries src -> dst` expands, from the Go struct type, into one obligation per field: scalars/strings/struct
+// values are equal, reference fields keep their nil-ness and length and do not alias the source.
+// A field added to the struct later is covered automatically (and fails if the clone forgets it).
+
+//@ func (*CleanSchema).Clone
+//@   trusted deep copy of the schema map
+//@   ensures (result == nil) == (cs == nil)
+//@   trusted_assigns nothing
+
+//@ func (*MeasurementInfo).CloneSchema
+//@   trusted takes the schema lock and calls CleanSchema.Clone
+//@   ensures (result == nil) == (msti.Schema == nil)
+//@   ensures result != nil ==> result != msti.Schema
+//@   trusted_assigns nothing
+
+//@ func (*MeasurementInfo).CloneShardIdexes
+//@   requires msti != nil
+//@   ensures (result == nil) == (msti.ShardIdexes == nil)
+//@   ensures result != nil ==> fresh(result)
+//@   trusted_assigns nothing
+
+//@ func ShardKeyInfo.clone
+//@   carries ski -> result
+//@   trusted_assigns nothing
+
+//@ func (*MeasurementInfo).clone
+//@   requires msti != nil
+//@   ensures result != nil && fresh(result)
+//@   carries msti -> result except SchemaLock(a lock is not catalogue state), IndexRelation(struct of slices copied by value: shared backing arrays, not decided)
+//@   trusted_assigns nothing
+
+//@ func ShardOwner.clone
+//@   carries so -> result
+//@   trusted_assigns nothing
+
+//@ func ShardInfo.clone
+//@   carries si -> result
+//@   trusted_assigns nothing
+
+//@ func IndexInfo.clone
+//@   carries ii -> result
+//@   trusted_assigns nothing
+
+//@ func ShardGroupInfo.clone
+//@   carries sgi -> result
+//@   trusted_assigns nothing
+
+//@ func IndexGroupInfo.clone
+//@   carries igi -> result
+//@   trusted_assigns nothing
+
+//@ func UserInfo.clone
+//@   carries u -> result
+//@   trusted_assigns nothing
+
+//@ func MeasurementVer.clone
+//@   ensures result != nil && fresh(result)
+//@   carries mstv -> result
+//@   trusted_assigns nothing
+
+//@ func RetentionPolicyInfo.Clone
+//@   ensures result != nil && fresh(result)
+//@   carries rpi -> result shared Subscriptions(aliased by the clone; mutated in place by DropSubscription: snapshot race not decided), DownSamplePolicyInfo(aliased by the clone: not decided)
+//@   trusted_assigns nothing
+
+//@ func DatabaseInfo.clone
+//@   ensures result != nil && fresh(result)
+//@   carries di -> result shared ObsOptions(aliased by the clone: not decided)
+//@   trusted_assigns nothing
